@@ -5,6 +5,7 @@ import XalanModel.C05.Index
 import XalanModel.C05.StreamHold
 import XalanModel.C05.Wrapper
 import XalanModel.C05.XDom
+import XalanModel.C05.PIScan
 import Driver.Util
 /-
 xm_c05: replays the request lines of harness/c05_core.cpp on the Lean models.
@@ -157,6 +158,21 @@ def xdomReply (ws : List String) : String :=
     | .ok t => "ok " ++ (if t = .nil then "-" else dump t)
     | .error e => showErr e
 
+/-- `pi`: the href chosen by the xml-stylesheet scan (as written; with --spec: with proposed/C05-pi-scan.diff) -/
+def piReply (fixed : Bool) (ws : List String) : String :=
+  let kids : Option (List PI.Child) := ws.mapM fun w =>
+    match w.splitOn ":" with
+    | ["X", d] => (Driver.unitsOfHex d).map some
+    | ["O"] => some none
+    | ["M"] => some none
+    | _ => none
+  match kids with
+  | none => "bad"
+  | some ks =>
+    match PI.chosen fixed ks with
+    | some h => "href " ++ Driver.hexOfUnits h
+    | none => "none"
+
 def parseOp (s : String) : Option WOp :=
   match s.splitOn ":" with
   | ["w", t] => (Driver.unitsOfHex t).map .wide
@@ -213,6 +229,7 @@ def step (spec : Bool) (s : Unit) : List String → Unit × String
   | "fst" :: ws => (s, fstReply spec ws)
   | "wrap" :: ws => (s, wrapReply ws)
   | "xdom" :: ws => (s, xdomReply ws)
+  | "pi" :: ws => (s, piReply spec ws)
   | ["data", h] => (s, match bytesOfHex h with
       | some b => hexOfBytes (cstr (capiData b))
       | none => "bad")
